@@ -12,6 +12,7 @@ require (
 	github.com/prometheus/client_model v0.6.1
 	gopkg.in/yaml.v3 v3.0.1
 	k8s.io/api v0.30.11
+	k8s.io/apiextensions-apiserver v0.30.11
 	k8s.io/apimachinery v0.30.11
 	k8s.io/client-go v0.30.11
 	sigs.k8s.io/yaml v1.4.0
@@ -95,7 +96,6 @@ require (
 	gopkg.in/inf.v0 v0.9.1 // indirect
 	gopkg.in/robfig/cron.v2 v2.0.0-20150107220207-be2e0b0deed5 // indirect
 	gopkg.in/yaml.v2 v2.4.0 // indirect
-	k8s.io/apiextensions-apiserver v0.30.11 // indirect
 	k8s.io/cli-runtime v0.30.11 // indirect
 	k8s.io/klog/v2 v2.130.1 // indirect
 	k8s.io/kube-openapi v0.0.0-20240228011516-70dd3763d340 // indirect
